@@ -211,6 +211,10 @@ class Check:
             ev["coverage"]["functions_analysed"] = len(project.functions)
             ev["coverage"]["modules_consulted"] = sorted(project.consulted)
             ev["coverage"]["source_digest"] = project.digest(project.consulted)
+            ev["coverage"]["spelling_normalisation"] = dict(
+                rule="function-local spellings, comparison orientation, inlined / newly extracted single-definition locals are normalised in memory toward rsa/pinned_locals.json before any rule runs (alpha-conversion; expressions taken as side-effect free); it decides nothing",
+                **{k: v for k, v in getattr(project, "alpha_stats", {}).items()},
+            )
         ev["coverage"].update(self.extra)
         ev["coverage"]["violation_list"] = violations_out
         if write and self.only_rule is None:
